@@ -98,14 +98,24 @@ def lean_phase(cfg, pid, tier, cmds):
             m = FORBIDDEN.search(strip_comments(open(f).read()))
             if m:
                 problems.append(f"forbidden token {m.group(0).strip()!r} in {os.path.relpath(f, ROOT)}")
-        # 3. build theorems + driver
-        b = run(["lake", "build", props_mod, "aurora-driver"], cwd=LEAN, timeout=3600)
-        cmds.append(f"(cd lean && lake build {props_mod} aurora-driver)")
-        names = theorem_names(props_path) if os.path.exists(props_path) else []
+        # 3. build the model driver (needed by the correspondence even when a proof breaks) ...
+        bd = run(["lake", "build", "aurora-driver"], cwd=LEAN, timeout=3600)
+        if bd.returncode != 0:
+            errs = [l for l in (bd.stdout + bd.stderr).splitlines() if "error" in l][:8]
+            problems.append("driver build failed: " + " | ".join(errs))
+        # ... then the theorems
+        mods = [props_mod] + list(cfg.get("lean_props_extra", []))
+        b = run(["lake", "build"] + mods, cwd=LEAN, timeout=3600)
+        cmds.append(f"(cd lean && lake build aurora-driver && lake build {' '.join(mods)})")
+        names = []
+        for m in mods:
+            mp = os.path.join(LEAN, m.replace(".", "/") + ".lean")
+            if os.path.exists(mp):
+                names += theorem_names(mp)
         obligations = [{"name": n, "axioms": None, "discharged": False} for n in names]
         if b.returncode != 0:
             errs = [l for l in (b.stdout + b.stderr).splitlines() if "error" in l][:8]
-            problems.append("lake build failed: " + " | ".join(errs))
+            problems.append("lake build failed (proof obligations do not check): " + " | ".join(errs))
             return obligations, problems
         if not names:
             problems.append("no theorems found in " + props_mod)
@@ -114,7 +124,7 @@ def lean_phase(cfg, pid, tier, cmds):
         os.makedirs(os.path.join(LEAN, "Audit"), exist_ok=True)
         ap = os.path.join(LEAN, "Audit", f"{pid}.lean")
         with open(ap, "w") as f:
-            f.write(f"import {props_mod}\n" + "".join(f"#print axioms {n}\n" for n in names))
+            f.write("".join(f"import {m}\n" for m in mods) + "".join(f"#print axioms {n}\n" for n in names))
         a = run(["lake", "env", "lean", ap], cwd=LEAN, timeout=1800)
         cmds.append(f"(cd lean && lake env lean Audit/{pid}.lean)   # #print axioms for every theorem")
         text = a.stdout + a.stderr
@@ -132,8 +142,8 @@ def lean_phase(cfg, pid, tier, cmds):
             else:
                 problems.append(f"theorem {ob['name']} not discharged (axioms: {ob['axioms']})")
         if tier == "thorough":
-            lc = run(["lake", "env", "leanchecker", props_mod], cwd=LEAN, timeout=3600)
-            cmds.append(f"(cd lean && lake env leanchecker {props_mod})")
+            lc = run(["lake", "env", "leanchecker"] + mods, cwd=LEAN, timeout=3600)
+            cmds.append(f"(cd lean && lake env leanchecker {' '.join(mods)})")
             if lc.returncode != 0:
                 problems.append("leanchecker failed: " + (lc.stdout + lc.stderr)[-300:])
     return obligations, problems
@@ -247,9 +257,11 @@ def case_hash(c):
     return hashlib.sha256("\n".join(c["ops"]).encode()).hexdigest()[:16]
 
 
-def shrink(pid, driver, case, pred_kind, clause, work, budget=120):
-    """delta-debug the op list while the failure persists.
+def shrink(pid, driver, case, pred_kind, clause, work, budget=60, fail_op=None, max_s=90):
+    """delta-debug the op list while the failure persists (bounded by evaluations and wall time).
     pred_kind: 'oracle' (oracle fails with same clause) or 'diff' (streams diverge)."""
+    t_end = time.time() + max_s
+
     def still_fails(ops):
         c = {"id": "shrink", "nt": False, "ops": ops}
         io, mo, fails, err = exec_both(pid, driver, [c], work, "shrink", 120)
@@ -261,7 +273,12 @@ def shrink(pid, driver, case, pred_kind, clause, work, budget=120):
     ops = list(case["ops"])
     n = 2
     evals = 0
-    while len(ops) >= 2 and evals < budget:
+    # cheap first step: drop everything after the op at which the failure was observed
+    if fail_op is not None and fail_op + 1 < len(ops):
+        evals += 1
+        if still_fails(ops[:fail_op + 1]):
+            ops = ops[:fail_op + 1]
+    while len(ops) >= 2 and evals < budget and time.time() < t_end:
         chunk = max(1, len(ops) // n)
         reduced = False
         for start in range(0, len(ops), chunk):
@@ -272,7 +289,7 @@ def shrink(pid, driver, case, pred_kind, clause, work, budget=120):
             if still_fails(cand):
                 ops = cand; n = max(n - 1, 2); reduced = True
                 break
-            if evals >= budget:
+            if evals >= budget or time.time() > t_end:
                 break
         if not reduced:
             if chunk == 1:
@@ -367,7 +384,7 @@ def body(args, cfg, pid, tier, seed, driver, work, cmds, t0):
     io = mo = None
     fails = []
     tmo = cfg.get("timeout_quick", 900) if tier == "quick" else cfg.get("timeout_thorough", 7200)
-    lean_ok = not any(p.startswith("lake build failed") for p in problems)
+    lean_ok = not any(p.startswith("driver build failed") for p in problems)
     if not harness_broken and lean_ok:
         io, mo, fails, e = exec_both(pid, driver, cases, work, "main", tmo)
         if e:
@@ -444,13 +461,17 @@ def body(args, cfg, pid, tier, seed, driver, work, cmds, t0):
     for sig, fl in by_sig.items():
         rep = min(fl, key=lambda f: len(f["case"]["ops"]))
         if rep["kind"] == "diff" and has_oracle:
-            # a divergence next to a property failure: report the property failure(s); keep the diff in the replay notes
-            pass
+            # a divergence next to a property failure found in the same run: the property failure(s) are the
+            # report; the divergence is not a separate "no failing input found" violation
+            continue
         k = next((k for k in known if k["property"] == pid and k["signature"] == sig), None)
         if k:
             known_lines.append(f"KNOWN-FINDING: property={pid} {sig} {k['what']} ({len(fl)} case(s) this run)")
             continue
-        ops = shrink(pid, driver, rep["case"], rep["kind"], rep["clause"], work)
+        if n < 4:
+            ops = shrink(pid, driver, rep["case"], rep["kind"], rep["clause"], work, fail_op=rep.get("op"))
+        else:   # many distinct signatures in one run: report the rest unshrunk (smallest case seen)
+            ops = list(rep["case"]["ops"])
         c2 = {"id": "min", "nt": True, "ops": ops}
         rio, rmo, rf, e = exec_both(pid, driver, [c2], work, "min", 300)
         n += 1
